@@ -297,6 +297,9 @@ class ParseMCNPCell:
                             0., 0., 1.]
         elif '*' in elt:
             fill_params = [float(x) for x in fill_params]
+            if len(fill_params) == 13 and int(fill_params[-1]) != 1:
+                raise NotImplementedError('affine transformations with m!=1 '
+                                          'are not supported yet')
             fill_params[3:] = list(map(to_cos, fill_params[3:12]))
             fill_params = normalize_transform(fill_params)
         elif fill_params:
@@ -340,6 +343,9 @@ class ParseMCNPCell:
                             0., 0., 1.]
         elif '*' in elt:
             trcl_params = [float(x) for x in trcl_params]
+            if len(trcl_params) == 13 and int(trcl_params[-1]) != 1:
+                raise NotImplementedError('affine transformations with m!=1 '
+                                          'are not supported yet')
             trcl_params[3:] = list(map(to_cos, trcl_params[3:12]))
         else:
             trcl_params = [float(x) for x in trcl_params]
